@@ -4,7 +4,7 @@
    offset/width — and order independence of the encoded link list.  Equality of whole DAGs with boxo
    and reading of boxo-written shards (after arbitrary insert/remove histories) are established per
    run by the correspondence of the builder/reader models and by the CID/size oracle. *)
-From UV Require Import Hamt.HashBits Hamt.HashBitsSpec Hamt.Build Hamt.SortProofs Hamt.TrieProofs Hamt.ShardDecode Hamt.Refine Hamt.Canon Base.Varint.
+From UV Require Import Hamt.HashBits Hamt.HashBitsSpec Hamt.Build Hamt.SortProofs Hamt.TrieProofs Hamt.ShardDecode Hamt.Refine Hamt.Canon Hamt.CanonSpec Base.Varint.
 From Coq Require Import Permutation.
 Local Open Scope N_scope.
 
@@ -40,3 +40,21 @@ Proof.
   split; [exact Hw|]. split; [exact (add_all_bmin lg entries cs Ha)|exact Hp].
 Qed.
 Print Assumptions C08_builder_keeps_the_invariants.
+
+(* the reference layout stated without insertion: group the entries by the hash slice of the level; one entry = a value
+   link, several = a sub-shard laid out the same way one level down (`canon`).  For every permitted fanout, every 8-byte
+   name hash and every entry list with distinct non-empty names on which the build succeeds, the builder returns exactly
+   the serialization (root block and cumulative size) of that trie *)
+Theorem C08_builder_writes_the_specification_trie : forall size lg, permitted size lg ->
+  forall H : bytes -> bytes, (forall k, wf_bytes (H k) = true) -> (forall k, length (H k) = 8%nat) ->
+  forall entries r,
+  Forall (entry_ok H) entries -> NoDup (map e_name entries) ->
+  build_sharded size HashMurmur3 entries = Ok r ->
+  r = serialize_node size HashMurmur3 (pad_len size) (BShard (canon lg 70 0 entries)).
+Proof. exact build_sharded_is_canon. Qed.
+Print Assumptions C08_builder_writes_the_specification_trie.
+
+Theorem C08_specification_example :
+  build_sharded 8 HashMurmur3 demo_entries = Ok (serialize_node 8 HashMurmur3 (pad_len 8) (BShard (canon 3 70 0 demo_entries))).
+Proof. exact canon_demo. Qed.
+Print Assumptions C08_specification_example.
